@@ -1,5 +1,6 @@
 (* conversions between OCaml values and the extracted inductives *)
 open Model
+type string = Stdlib.String.t
 let rec pos_of_int (i : int) : positive =
   if i = 1 then XH else if i land 1 = 0 then XO (pos_of_int (i lsr 1)) else XI (pos_of_int (i lsr 1))
 let n_of_int (i : int) : n = if i = 0 then N0 else Npos (pos_of_int i)
@@ -43,3 +44,14 @@ let hex_of_ns l = hex_of_ints (List.map int_of_n l)
 let split_ws (s : string) : string list = List.filter (fun x -> x <> "") (String.split_on_char ' ' s)
 let iter_lines (f : string -> unit) =
   (try while true do f (input_line stdin) done with End_of_file -> ())
+(* Z and Coq strings *)
+let string_of_z = function Z0 -> "0" | Zpos p -> string_of_n (Npos p) | Zneg p -> "-" ^ string_of_n (Npos p)
+let z_of_string (s : string) : z =
+  if s = "" then Z0 else if s.[0] = '-' then (match n_of_string (String.sub s 1 (String.length s - 1)) with N0 -> Z0 | Npos p -> Zneg p)
+  else (match n_of_string s with N0 -> Z0 | Npos p -> Zpos p)
+let coq_string (s : string) : Model.string =
+  let r = ref EmptyString in
+  for i = String.length s - 1 downto 0 do r := String (ascii_of_char s.[i], !r) done; !r
+let rec is_prefix a b = match a, b with [], _ -> true | x :: a', y :: b' -> x = y && is_prefix a' b' | _ -> false
+let rec take_l k l = if k <= 0 then [] else match l with [] -> [] | x :: r -> x :: take_l (k - 1) r
+let rec drop_l k l = if k <= 0 then l else match l with [] -> [] | _ :: r -> drop_l (k - 1) r
